@@ -1,186 +1,31 @@
-//! C08 — clear() makes a region observationally fresh (generated by tools/genharness.py, then maintained by hand).
-use crate::cat::*;
 use crate::sym;
-use flatcontainer::Region;
+use flatcontainer::impls::huffman_container::HuffmanContainer;
+use flatcontainer::*;
 
-/// Twin run: A = default; two pushes; clear; then x, y.  B = default; x, y.  Indices and reads must coincide.
-fn twin<C: Cat>() {
-    let mut a = <C::R as Default>::default();
-    let h1 = C::any();
-    let h2 = C::any();
-    let _ = C::push(&mut a, &h1);
-    let _ = C::push(&mut a, &h2);
-    a.clear();
-    let mut b = <C::R as Default>::default();
-    let x = C::any();
-    let y = C::any();
-    let ax = C::push(&mut a, &x);
-    let bx = C::push(&mut b, &x);
-    assert!(C::idx_eq(ax, bx), "C08: first index after clear differs from a fresh region's");
-    let ay = C::push(&mut a, &y);
-    let by = C::push(&mut b, &y);
-    assert!(C::idx_eq(ay, by), "C08: second index after clear differs from a fresh region's");
-    C::check(&a, ax, &x, Asp::Light);
-    C::check(&a, ay, &y, Asp::Light);
-    cover!(true, "end reached");
-    sym::forget(a);
-    sym::forget(b);
+// @h prop=C00 tier=quick kind=proof engine=paths timeout=900
+#[cfg_attr(kani, kani::proof, kani::unwind(14))]
+pub fn x_huff_raw2() {
+    let a = sym::u8();
+    let b = sym::u8();
+    let mut c = HuffmanContainer::<u8>::default();
+    let i = c.push([a, b].as_slice());
+    let o = c.index(i).into_owned();
+    assert!(o.len() == 2 && o[0] == a && o[1] == b);
+    sym::forget((c, o));
 }
 
-/// As `twin`, but the history before the clear and the pushes after it use the *same* shape, so that a stale
-/// deduplication memory or offset would be hit (first push after clear equal to the last push before it is possible).
-fn twin_same<C: Cat>() {
-    let mut a = <C::R as Default>::default();
-    sym::set_shape(0);
-    let h1 = C::any();
-    let _ = C::push(&mut a, &h1);
-    a.clear();
-    let mut b = <C::R as Default>::default();
-    sym::set_shape(0);
-    let x = C::any();
-    let ax = C::push(&mut a, &x);
-    let bx = C::push(&mut b, &x);
-    assert!(C::idx_eq(ax, bx), "C08: index after clear differs from a fresh region's");
-    C::check(&a, ax, &x, Asp::Light);
-    // used bytes must be those of the fresh twin
-    let (mut ua, mut ub) = (0usize, 0usize);
-    a.heap_size(|u, _| ua += u);
-    b.heap_size(|u, _| ub += u);
-    assert!(ua == ub, "C08: used bytes after clear+push differ from a fresh region's");
-    cover!(true, "end reached");
-    sym::forget(a);
-    sym::forget(b);
+// @h prop=C00 tier=quick kind=proof engine=paths timeout=1800 unwindset="drop_glue|drop_in_place:1;from_fn|Decode.*map:258;insert_decode:258;any_void:258"
+#[cfg_attr(kani, kani::proof, kani::unwind(14))]
+pub fn x_huff_merge2() {
+    let a = sym::u8();
+    let b = sym::u8();
+    sym::assume(a != b);
+    let mut c = HuffmanContainer::<u8>::default();
+    let _ = c.push([a, b, a].as_slice());
+    let mut m = HuffmanContainer::merge_regions([&c].into_iter());
+    let i = m.push([a, b].as_slice());
+    let o = m.index(i).into_owned();
+    assert!(o.len() == 2 && o[0] == a && o[1] == b);
+    assert!(i == (0, 2));
+    sym::forget((c, m, o));
 }
-
-// @h prop=C00 tier=quick kind=proof inst="OwnedRegion<u8>" bounds="2 pushes, clear, 2 pushes vs fresh twin; each item <=3 symbolic bytes; length symbolic in C01 round trips, else rotation 2,3,0,1" desc="indices and reads after clear equal those of Default::default()"
-#[cfg_attr(kani, kani::proof, kani::unwind(6))]
-pub fn c00_twin_own_u8() {
-    twin::<OwnU8>();
-}
-
-// @h prop=C00 tier=quick kind=proof inst="OwnedRegion<()>" bounds="2 pushes, clear, 2 pushes vs fresh twin; each item <=3 zero-sized elements" desc="indices and reads after clear equal those of Default::default()"
-#[cfg_attr(kani, kani::proof, kani::unwind(6))]
-pub fn c00_twin_own_unit() {
-    twin::<OwnUnit>();
-}
-
-// @h prop=C00 tier=quick kind=proof inst="StringRegion" bounds="2 pushes, clear, 2 pushes vs fresh twin; each item string of the shape rotation [2+3 bytes],[4],[],[1+2],[3],[1] with symbolic contents" desc="indices and reads after clear equal those of Default::default()"
-#[cfg_attr(kani, kani::proof, kani::unwind(6))]
-pub fn c00_twin_str() {
-    twin::<Str>();
-}
-
-// @h prop=C00 tier=quick kind=proof inst="Vec<u8> as region" bounds="2 pushes, clear, 2 pushes vs fresh twin; each item any u8" desc="indices and reads after clear equal those of Default::default()"
-#[cfg_attr(kani, kani::proof, kani::unwind(6))]
-pub fn c00_twin_vec_u8() {
-    twin::<VecU8>();
-}
-
-// @h prop=C00 tier=quick kind=proof inst="OptionRegion<StringRegion>" bounds="2 pushes, clear, 2 pushes vs fresh twin; each item None or Some(shape-rotation string)" desc="indices and reads after clear equal those of Default::default()"
-#[cfg_attr(kani, kani::proof, kani::unwind(6))]
-pub fn c00_twin_opt_str() {
-    twin::<OptStr>();
-}
-
-// @h prop=C00 tier=quick kind=proof inst="ResultRegion<StringRegion, MirrorRegion<u8>>" bounds="2 pushes, clear, 2 pushes vs fresh twin; each item Ok(shape-rotation string) or Err(any u8)" desc="indices and reads after clear equal those of Default::default()"
-#[cfg_attr(kani, kani::proof, kani::unwind(6))]
-pub fn c00_twin_res_str_u8() {
-    twin::<ResStrU8>();
-}
-
-// @h prop=C00 tier=quick kind=proof inst="TupleABRegion<StringRegion, MirrorRegion<u16>>" bounds="2 pushes, clear, 2 pushes vs fresh twin; each item (shape-rotation string, any u16)" desc="indices and reads after clear equal those of Default::default()"
-#[cfg_attr(kani, kani::proof, kani::unwind(6))]
-pub fn c00_twin_tup_str_u16() {
-    twin::<TupStrU16>();
-}
-
-// @h prop=C00 tier=quick kind=proof inst="SliceRegion<MirrorRegion<u8>>" bounds="2 pushes, clear, 2 pushes vs fresh twin; each item <=3 symbolic bytes; length symbolic in C01 round trips, else rotation 2,3,0,1" desc="indices and reads after clear equal those of Default::default()"
-#[cfg_attr(kani, kani::proof, kani::unwind(6))]
-pub fn c00_twin_slice_u8() {
-    twin::<SliceU8>();
-}
-
-// @h prop=C00 tier=quick kind=proof inst="SliceRegion<StringRegion>" bounds="2 pushes, clear, 2 pushes vs fresh twin; each item row of 2,1,0 short strings (rotation), symbolic contents" desc="indices and reads after clear equal those of Default::default()"
-#[cfg_attr(kani, kani::proof, kani::unwind(6))]
-pub fn c00_twin_slice_str() {
-    twin::<SliceStr>();
-}
-
-// @h prop=C00 tier=quick kind=proof inst="SliceRegion<ConsecutiveIndexPairs<StringRegion, IndexOptimized>, IndexOptimized>" bounds="2 pushes, clear, 2 pushes vs fresh twin; each item row of 2,1,0 short strings (rotation), symbolic contents" desc="indices and reads after clear equal those of Default::default()"
-#[cfg_attr(kani, kani::proof, kani::unwind(6))]
-pub fn c00_twin_slice_cip_str() {
-    twin::<SliceCipStr>();
-}
-
-// @h prop=C00 tier=quick kind=proof inst="SliceRegion<SliceRegion<MirrorRegion<u8>>>" bounds="2 pushes, clear, 2 pushes vs fresh twin; each item 2,1,0 ragged rows (rotation) of 2,1,0 symbolic bytes" desc="indices and reads after clear equal those of Default::default()"
-#[cfg_attr(kani, kani::proof, kani::unwind(6))]
-pub fn c00_twin_slice_slice_u8() {
-    twin::<SliceSliceU8>();
-}
-
-// @h prop=C00 tier=quick kind=proof inst="ColumnsRegion<MirrorRegion<u8>> (IndexOptimized offsets)" bounds="2 pushes, clear, 2 pushes vs fresh twin; each item rows 2,3,0,1 cells wide (rotation), symbolic cells" desc="indices and reads after clear equal those of Default::default()"
-#[cfg_attr(kani, kani::proof, kani::unwind(6))]
-pub fn c00_twin_col_u8() {
-    twin::<ColU8>();
-}
-
-// @h prop=C00 tier=quick kind=proof inst="ColumnsRegion<MirrorRegion<u8>, Vec<usize>>" bounds="2 pushes, clear, 2 pushes vs fresh twin; each item rows 2,3,0,1 cells wide (rotation), symbolic cells" desc="indices and reads after clear equal those of Default::default()"
-#[cfg_attr(kani, kani::proof, kani::unwind(6))]
-pub fn c00_twin_col_u8_vec() {
-    twin::<ColU8Vec>();
-}
-
-// @h prop=C00 tier=quick kind=proof inst="CollapseSequence<OwnedRegion<u8>>" bounds="2 pushes, clear, 2 pushes vs fresh twin; each item symbolic bytes, lengths 2,3,0,1 (rotation)" desc="indices and reads after clear equal those of Default::default()"
-#[cfg_attr(kani, kani::proof, kani::unwind(6))]
-pub fn c00_twin_collapse_own() {
-    twin::<CollapseOwn>();
-}
-
-// @h prop=C00 tier=quick kind=proof inst="CollapseSequence<StringRegion>" bounds="2 pushes, clear, 2 pushes vs fresh twin; each item shape-rotation string" desc="indices and reads after clear equal those of Default::default()"
-#[cfg_attr(kani, kani::proof, kani::unwind(6))]
-pub fn c00_twin_collapse_str() {
-    twin::<CollapseStr>();
-}
-
-// @h prop=C00 tier=quick kind=proof inst="CollapseSequence<MirrorRegion<f64>>" bounds="2 pushes, clear, 2 pushes vs fresh twin; each item any f64 bit pattern" desc="indices and reads after clear equal those of Default::default()"
-#[cfg_attr(kani, kani::proof, kani::unwind(6))]
-pub fn c00_twin_collapse_f64() {
-    twin::<CollapseF64>();
-}
-
-// @h prop=C00 tier=quick kind=proof inst="ConsecutiveIndexPairs<OwnedRegion<u8>, IndexOptimized>" bounds="2 pushes, clear, 2 pushes vs fresh twin; each item symbolic bytes, lengths 2,3,0,1 (rotation)" desc="indices and reads after clear equal those of Default::default()"
-#[cfg_attr(kani, kani::proof, kani::unwind(6))]
-pub fn c00_twin_cip_own_opt() {
-    twin::<CipOwnOpt>();
-}
-
-// @h prop=C00 tier=quick kind=proof inst="ConsecutiveIndexPairs<OwnedRegion<u8>, Vec<usize>>" bounds="2 pushes, clear, 2 pushes vs fresh twin; each item symbolic bytes, lengths 2,3,0,1 (rotation)" desc="indices and reads after clear equal those of Default::default()"
-#[cfg_attr(kani, kani::proof, kani::unwind(6))]
-pub fn c00_twin_cip_own_vec() {
-    twin::<CipOwnVec>();
-}
-
-// @h prop=C00 tier=quick kind=proof inst="ConsecutiveIndexPairs<OwnedRegion<u8>, IndexList<Vec<u32>,Vec<u64>>>" bounds="2 pushes, clear, 2 pushes vs fresh twin; each item symbolic bytes, lengths 2,3,0,1 (rotation)" desc="indices and reads after clear equal those of Default::default()"
-#[cfg_attr(kani, kani::proof, kani::unwind(6))]
-pub fn c00_twin_cip_own_list() {
-    twin::<CipOwnList>();
-}
-
-// @h prop=C00 tier=quick kind=proof inst="ConsecutiveIndexPairs<StringRegion>" bounds="2 pushes, clear, 2 pushes vs fresh twin; each item shape-rotation string" desc="indices and reads after clear equal those of Default::default()"
-#[cfg_attr(kani, kani::proof, kani::unwind(6))]
-pub fn c00_twin_cip_str() {
-    twin::<CipStr>();
-}
-
-// @h prop=C00 tier=quick kind=proof inst="ConsecutiveIndexPairs<SliceRegion<MirrorRegion<u8>>>" bounds="2 pushes, clear, 2 pushes vs fresh twin; each item symbolic bytes, lengths 2,3,0,1 (rotation)" desc="indices and reads after clear equal those of Default::default()"
-#[cfg_attr(kani, kani::proof, kani::unwind(6))]
-pub fn c00_twin_cip_slice_u8() {
-    twin::<CipSliceU8>();
-}
-
-// @h prop=C00 tier=quick kind=proof inst="CollapseSequence<ConsecutiveIndexPairs<StringRegion>>" bounds="2 pushes, clear, 2 pushes vs fresh twin; each item shape-rotation string" desc="indices and reads after clear equal those of Default::default()"
-#[cfg_attr(kani, kani::proof, kani::unwind(6))]
-pub fn c00_twin_collapse_cip_str() {
-    twin::<CollapseCipStr>();
-}
-
